@@ -28,6 +28,8 @@ SHAPES = {
     "DN": [["@", "t1"], ["z"]],        # "@" = the payload root's own name (sub-directory named like the root)
     "DNf": [["@"], ["b"]],             # a file named like the root
     "DC": [["docs", "README"], ["docs", "readme"], ["Sub", "x"], ["sub", "x"]],   # names differing only in case
+    "DU": [["ünï cödé", "ç é.bin"], [".hidden"], ["sp ace", "tab\there"], ["名前.dat"]],   # unusual but valid names
+    "D5": [["l1", "l2", "l3", "l4", "deep.bin"], ["l1", "l2", "mid.bin"], ["l1", "top.bin"]],
 }
 
 
@@ -36,8 +38,11 @@ def mk_tree(shape, sizes, name=None):
         return {"name": name or "single.bin", "single": True, "files": [{"path": [], "size": sizes[0]}]}
     nm = name or ("t" + shape)
     paths = [[nm if c == "@" else c for c in p] for p in SHAPES[shape]]
-    return {"name": nm, "single": False,
-            "files": [{"path": p, "size": s} for p, s in zip(paths, sizes)]}
+    t = {"name": nm, "single": False,
+         "files": [{"path": p, "size": s} for p, s in zip(paths, sizes)]}
+    if shape in ("D4", "D5"):
+        t["dirs"] = [["emptydir"], ["d", "alsoempty"]]       # directories without files
+    return t
 
 
 def gen_trees(tier, rng, plens, quick_n, thorough_n, need_nonempty=True):
@@ -61,7 +66,7 @@ def gen_trees(tier, rng, plens, quick_n, thorough_n, need_nonempty=True):
         for dl in deltas:
             out.append((rng.choice(("S1", "D1")), (npc * P0 + dl,), P0))
     n = thorough_n if tier == "thorough" else quick_n
-    shapes = ["D3", "D4", "D2n", "D2", "DN", "DNf", "DC"]
+    shapes = ["D3", "D4", "D2n", "D2", "DN", "DNf", "DC", "DU", "D5"]
     for _ in range(n):
         P = rng.choice(plens)
         A = alphabet(P)
@@ -147,7 +152,8 @@ class C01(CreateProp):
         out = []
         for n, (sh, sizes, P) in enumerate(gen_trees(tier, rng, plens(tier), 260, 4000)):
             creator = "TorrentFile" if n % 4 else "cli"
-            out.append({"creator": creator, "version": 1, "P": P, "tree": mk_tree(sh, sizes), "clauses": cl})
+            out.append({"creator": creator, "version": 1, "P": P, "tree": mk_tree(sh, sizes), "clauses": cl,
+                        "progress": (0, 0, 1, 2)[n % 4] if n % 5 == 0 else 0})
         return out
 
 
@@ -203,7 +209,8 @@ class C02(CreateProp):
                   ("TorrentFileHybrid", 3), ("cli", 2), ("cli", 3)]
         for n, (sh, sizes, P) in enumerate(gen_trees(tier, rng, plens(tier), 200, 3000)):
             creator, v = combos[n % len(combos)]
-            out.append({"creator": creator, "version": v, "P": P, "tree": mk_tree(sh, sizes), "clauses": cl})
+            out.append({"creator": creator, "version": v, "P": P, "tree": mk_tree(sh, sizes), "clauses": cl,
+                        "progress": (1, 2)[n % 2] if n % 7 == 0 else 0})
         return out
 
 
@@ -225,7 +232,8 @@ class C03(CreateProp):
         combos = [("TorrentAssembler", 3), ("TorrentFileHybrid", 3), ("cli", 3)]
         for n, (sh, sizes, P) in enumerate(gen_trees(tier, rng, plens(tier), 200, 3000)):
             creator, v = combos[n % len(combos)]
-            out.append({"creator": creator, "version": v, "P": P, "tree": mk_tree(sh, sizes), "clauses": cl})
+            out.append({"creator": creator, "version": v, "P": P, "tree": mk_tree(sh, sizes), "clauses": cl,
+                        "progress": (1, 2)[n % 2] if n % 7 == 0 else 0})
         return out
 
 
